@@ -129,3 +129,533 @@ Proof. unfold wf_report, new_report, empty_root. cbn. tauto. Qed.
 
 Lemma rcell_new row k : rcell row k new_report == 0.
 Proof. unfold rcell, new_report, empty_root. cbn. destruct (acc_eqb [] row); ring. Qed.
+
+(* ------------------------------------------------------------ Part 2: the query stage as a fold over postings *)
+
+(* the dated postings of a list of days, in processing order *)
+Definition day_postings (d : day) : list (Z * posting) :=
+  concat (map (fun t => map (fun p => (t_date t, p)) (t_postings t)) (d_txns d)).
+Definition days_postings (ds : list day) : list (Z * posting) := concat (map day_postings ds).
+
+(* what the query inserts for one dated posting *)
+Definition q_contrib (q : query) (row : account) (k : rkey) (dp : Z * posting) : Q :=
+  let '(d, p) := dp in
+  if q_where q (p_acc p) (p_com p) then
+    match q_account q (p_acc p) with
+    | ShAcc a => delta_at row k a (q_date q d, Some (p_com p)) (if q_valued q then p_val p else p_qty p)
+    | _ => 0
+    end
+  else 0.
+
+Definition q_total (q : query) (row : account) (k : rkey) (l : list (Z * posting)) : Q :=
+  fold_right (fun dp acc => q_contrib q row k dp + acc) 0 l.
+
+Lemma q_total_app q row k l1 l2 : q_total q row k (l1 ++ l2) == q_total q row k l1 + q_total q row k l2.
+Proof. unfold q_total. induction l1 as [|x l1 IH]; cbn [app fold_right]; [ring|]. rewrite IH. ring. Qed.
+
+Lemma txn_rebuild t : mkTxn (t_date t) (t_desc t) (t_postings t) (t_targets t) = t.
+Proof. destruct t; reflexivity. Qed.
+
+Lemma day_rebuild d : mkDay (d_date d) (d_prices d) (d_opens d) (d_txns d) (d_asserts d) (d_closes d) (d_normalized d) = d.
+Proof. destruct d; reflexivity. Qed.
+
+Section QueryFold.
+  Variable q : query.
+  Variable row : account.
+  Variable k : rkey.
+
+  Lemma query_postings t : forall ps r r' ps',
+    wf_report r ->
+    fold_postings (query_posting q report_insert) t r ps = ROk (r', ps') ->
+    ps' = ps /\ wf_report r' /\
+    rcell row k r' == rcell row k r + q_total q row k (map (fun p => (t_date t, p)) ps).
+  Proof.
+    induction ps as [|p ps IH]; intros r r' ps' Hwf H; cbn [fold_postings] in H.
+    - inversion H; subst. split; [reflexivity|split; [assumption|]]. cbn. ring.
+    - destruct (query_posting q report_insert r t p) as [[r1 p1]| |] eqn:E1; try discriminate.
+      cbn [rbind fst snd] in H.
+      destruct (fold_postings (query_posting q report_insert) t r1 ps) as [[r2 ps2]| |] eqn:E2; try discriminate.
+      cbn [rbind fst snd] in H. inversion H; subst r' ps'. clear H.
+      assert (Hstep : p1 = p /\ wf_report r1 /\ rcell row k r1 == rcell row k r + q_contrib q row k (t_date t, p)).
+      { unfold query_posting in E1. unfold q_contrib.
+        destruct (q_where q (p_acc p) (p_com p)).
+        - destruct (q_account q (p_acc p)) as [a| |]; try discriminate.
+          + injection E1 as Hr Hp. subst r1 p1.
+            destruct (rcell_insert row k r (q_date q (t_date t)) a (p_com p) (if q_valued q then p_val p else p_qty p) Hwf) as [A B].
+            split; [reflexivity|split; assumption].
+          + injection E1 as Hr Hp. subst r1 p1. split; [reflexivity|split; [assumption|ring]].
+        - injection E1 as Hr Hp. subst r1 p1. split; [reflexivity|split; [assumption|ring]]. }
+      destruct Hstep as (-> & Hwf1 & Hc1).
+      destruct (IH _ _ _ Hwf1 E2) as (-> & Hwf2 & Hc2).
+      split; [reflexivity|split; [assumption|]].
+      unfold q_total in *. cbn [map fold_right]. rewrite Hc2, Hc1. ring.
+  Qed.
+
+  Lemma query_txns : forall ts r r' ts',
+    wf_report r ->
+    fold_txns (query_proc q report_insert) r ts = ROk (r', ts') ->
+    ts' = ts /\ wf_report r' /\
+    rcell row k r' == rcell row k r +
+      q_total q row k (concat (map (fun t => map (fun p => (t_date t, p)) (t_postings t)) ts)).
+  Proof.
+    induction ts as [|t ts IH]; intros r r' ts' Hwf H; cbn [fold_txns] in H.
+    - inversion H; subst. split; [reflexivity|split; [assumption|]]. cbn. ring.
+    - cbn [query_proc pr_txn pr_posting rbind] in H.
+      destruct (fold_postings (query_posting q report_insert) t r (t_postings t)) as [[r1 ps1]| |] eqn:E1; try discriminate.
+      cbn [rbind fst snd] in H.
+      destruct (query_postings t _ _ _ _ Hwf E1) as (-> & Hwf1 & Hc1).
+      destruct (fold_txns (query_proc q report_insert) r1 ts) as [[r2 ts2]| |] eqn:E2; try discriminate.
+      cbn [rbind fst snd] in H. inversion H; subst r' ts'. clear H.
+      destruct (IH _ _ _ Hwf1 E2) as (-> & Hwf2 & Hc2).
+      split; [rewrite txn_rebuild; reflexivity|split; [assumption|]].
+      cbn [map concat]. rewrite q_total_app, Hc2, Hc1. ring.
+  Qed.
+
+  Lemma query_day r d r' d' :
+    wf_report r ->
+    process_day (query_proc q report_insert) r d = ROk (r', d') ->
+    d' = d /\ wf_report r' /\ rcell row k r' == rcell row k r + q_total q row k (day_postings d).
+  Proof.
+    intros Hwf H. unfold process_day in H.
+    cbn [query_proc pr_day_start pr_price pr_open pr_balance pr_close pr_day_end rbind fst snd] in H.
+    destruct (fold_txns (query_proc q report_insert) r (d_txns d)) as [[r1 ts1]| |] eqn:E1; try discriminate.
+    cbn [rbind fst snd] in H.
+    destruct (query_txns _ _ _ _ Hwf E1) as (-> & Hwf1 & Hc1).
+    cbn [d_asserts d_closes] in H.
+    assert (Ha : forall l s, fold_asserts (query_proc q report_insert) s l = ROk s).
+    { induction l as [|a l IHl]; intros s; cbn [fold_asserts query_proc pr_balance rbind]; [reflexivity|apply IHl]. }
+    rewrite Ha in H. cbn [rbind] in H. inversion H; subst r' d'.
+    split; [apply day_rebuild|split; [assumption|exact Hc1]].
+  Qed.
+
+  Lemma query_days : forall ds r r' ds',
+    wf_report r ->
+    process_days (query_proc q report_insert) r ds = ROk (r', ds') ->
+    ds' = ds /\ wf_report r' /\ rcell row k r' == rcell row k r + q_total q row k (days_postings ds).
+  Proof.
+    induction ds as [|d ds IH]; intros r r' ds' Hwf H; cbn [process_days] in H.
+    - inversion H; subst. split; [reflexivity|split; [assumption|]]. cbn. ring.
+    - destruct (process_day (query_proc q report_insert) r d) as [[r1 d1]| |] eqn:E1; try discriminate.
+      cbn [rbind fst snd] in H.
+      destruct (query_day _ _ _ _ Hwf E1) as (-> & Hwf1 & Hc1).
+      destruct (process_days (query_proc q report_insert) r1 ds) as [[r2 ds2]| |] eqn:E2; try discriminate.
+      cbn [rbind fst snd] in H. inversion H; subst r' ds'. clear H.
+      destruct (IH _ _ _ Hwf1 E2) as (-> & Hwf2 & Hc2).
+      split; [reflexivity|split; [assumption|]].
+      unfold days_postings. cbn [map concat]. rewrite q_total_app.
+      unfold days_postings in Hc2. rewrite Hc2, Hc1. ring.
+  Qed.
+End QueryFold.
+
+(* ------------------------------------------------------------ Part 3: stages that leave the days alone *)
+
+Section IdStage.
+  Context {S : Type} (p : processor S).
+  Hypothesis no_start : pr_day_start p = None.
+  Hypothesis no_end : pr_day_end p = None.
+  Hypothesis posting_id : forall f s t x s' x', pr_posting p = Some f -> f s t x = ROk (s', x') -> x' = x.
+
+  Lemma fold_postings_id f t : pr_posting p = Some f -> forall ps s s' ps',
+    fold_postings f t s ps = ROk (s', ps') -> ps' = ps.
+  Proof.
+    intros Hf. induction ps as [|x ps IH]; intros s s' ps' H; cbn [fold_postings] in H.
+    - inversion H; reflexivity.
+    - destruct (f s t x) as [[s1 x1]| |] eqn:E1; try discriminate. cbn [rbind fst snd] in H.
+      destruct (fold_postings f t s1 ps) as [[s2 ps2]| |] eqn:E2; try discriminate. cbn [rbind fst snd] in H.
+      inversion H; subst. rewrite (posting_id f s t x s1 x1 Hf E1), (IH _ _ _ E2). reflexivity.
+  Qed.
+
+  Lemma fold_txns_id : forall ts s s' ts', fold_txns p s ts = ROk (s', ts') -> ts' = ts.
+  Proof.
+    induction ts as [|t ts IH]; intros s s' ts' H; cbn [fold_txns] in H.
+    - inversion H; reflexivity.
+    - destruct (match pr_txn p with Some f => f s t | None => ROk s end) as [s1| |]; try discriminate.
+      cbn [rbind] in H.
+      case_opt (pr_posting p) f Ef; rewrite Ef in H.
+      + destruct (fold_postings f t s1 (t_postings t)) as [[s2 ps2]| |] eqn:E2; try discriminate.
+        cbn [rbind fst snd] in H.
+        destruct (fold_txns p s2 ts) as [[s3 ts3]| |] eqn:E3; try discriminate. cbn [rbind fst snd] in H.
+        inversion H; subst. rewrite (fold_postings_id f t Ef _ _ _ _ E2), txn_rebuild, (IH _ _ _ E3). reflexivity.
+      + cbn [rbind fst snd] in H.
+        destruct (fold_txns p s1 ts) as [[s3 ts3]| |] eqn:E3; try discriminate. cbn [rbind fst snd] in H.
+        inversion H; subst. rewrite (IH _ _ _ E3). reflexivity.
+  Qed.
+
+  Lemma process_day_id s d s' d' : process_day p s d = ROk (s', d') -> d' = d.
+  Proof.
+    intros H. unfold process_day in H. rewrite no_start, no_end in H. cbn [rbind fst snd] in H.
+    destruct (match pr_price p with Some f => fold_res f s (d_prices d) | None => ROk s end) as [s2| |]; try discriminate.
+    cbn [rbind] in H.
+    destruct (match pr_open p with Some f => fold_res f s2 (d_opens d) | None => ROk s2 end) as [s3| |]; try discriminate.
+    cbn [rbind] in H.
+    destruct (fold_txns p s3 (d_txns d)) as [[s4 ts']| |] eqn:E4; try discriminate. cbn [rbind fst snd] in H.
+    rewrite (fold_txns_id _ _ _ _ E4) in H. cbn [d_asserts d_closes] in H.
+    destruct (fold_asserts p s4 (d_asserts d)) as [s5| |]; try discriminate. cbn [rbind] in H.
+    destruct (match pr_close p with Some f => fold_res f s5 (d_closes d) | None => ROk s5 end) as [s6| |]; try discriminate.
+    cbn [rbind] in H. inversion H. apply day_rebuild.
+  Qed.
+
+  Lemma process_days_id : forall ds s s' ds', process_days p s ds = ROk (s', ds') -> ds' = ds.
+  Proof.
+    induction ds as [|d ds IH]; intros s s' ds' H; cbn [process_days] in H.
+    - inversion H; reflexivity.
+    - destruct (process_day p s d) as [[s1 d1]| |] eqn:E1; try discriminate. cbn [rbind fst snd] in H.
+      destruct (process_days p s1 ds) as [[s2 ds2]| |] eqn:E2; try discriminate. cbn [rbind fst snd] in H.
+      inversion H; subst. rewrite (process_day_id _ _ _ _ E1), (IH _ _ _ E2). reflexivity.
+  Qed.
+End IdStage.
+
+Lemma check_stage_id lenient s ds s' ds' :
+  process_days (check_proc lenient) s ds = ROk (s', ds') -> ds' = ds.
+Proof.
+  apply process_days_id; try reflexivity.
+  intros f s0 t x s1 x1 Hf H. cbn [check_proc pr_posting] in Hf. injection Hf as <-.
+  unfold ck_posting_cb in H. destruct (negb (is_open s0 (p_acc x))); try discriminate.
+  destruct (is_AL (p_acc x)); inversion H; reflexivity.
+Qed.
+
+(* the filter stage keeps the days inside the span and empties the others *)
+Lemma filter_stage_spec sp : forall ds s s' ds',
+  process_days (filter_proc sp) s ds = ROk (s', ds') ->
+  ds' = map (fun d => if period_contains sp (d_date d) then d else set_txns d []) ds.
+Proof.
+  induction ds as [|d ds IH]; intros s s' ds' H; cbn [process_days] in H.
+  - inversion H; reflexivity.
+  - destruct (process_day (filter_proc sp) s d) as [[s1 d1]| |] eqn:E1; try discriminate. cbn [rbind fst snd] in H.
+    destruct (process_days (filter_proc sp) s1 ds) as [[s2 ds2]| |] eqn:E2; try discriminate. cbn [rbind fst snd] in H.
+    inversion H; subst. cbn [map]. rewrite (IH _ _ _ E2). f_equal.
+    unfold process_day in E1. cbn [filter_proc pr_day_start pr_price pr_open pr_close pr_day_end rbind fst snd] in E1.
+    assert (Ht : forall ts s0, fold_txns (filter_proc sp) s0 ts = ROk (s0, ts)).
+    { induction ts as [|t ts IHt]; intros s0; cbn [fold_txns filter_proc pr_txn pr_posting rbind fst snd]; [reflexivity|].
+      rewrite IHt. cbn [rbind fst snd]. reflexivity. }
+    rewrite Ht in E1. cbn [rbind fst snd d_asserts d_closes] in E1.
+    assert (Ha : forall l s0, fold_asserts (filter_proc sp) s0 l = ROk s0).
+    { induction l as [|a l IHl]; intros s0; cbn [fold_asserts filter_proc pr_balance rbind]; [reflexivity|apply IHl]. }
+    rewrite Ha in E1. cbn [rbind d_date] in E1. rewrite day_rebuild in E1. inversion E1. reflexivity.
+Qed.
+
+(* ------------------------------------------------------------ Part 4: builder, sums over lists *)
+
+Definition qsum {A} (f : A -> Q) (l : list A) : Q := fold_right (fun x acc => f x + acc) 0 l.
+
+Lemma qsum_app {A} (f : A -> Q) l1 l2 : qsum f (l1 ++ l2) == qsum f l1 + qsum f l2.
+Proof. unfold qsum. induction l1 as [|x l1 IH]; cbn [app fold_right]; [ring|]. rewrite IH. ring. Qed.
+
+Lemma qsum_ext {A} (f g : A -> Q) l : (forall x, In x l -> f x == g x) -> qsum f l == qsum g l.
+Proof.
+  unfold qsum. induction l as [|x l IH]; intros H; cbn [fold_right]; [reflexivity|].
+  rewrite (H x (or_introl eq_refl)), IH; [reflexivity|]. intros y Hy. apply H. right. exact Hy.
+Qed.
+
+Lemma qsum_perm {A} (f : A -> Q) l1 l2 : Permutation l1 l2 -> qsum f l1 == qsum f l2.
+Proof.
+  unfold qsum. induction 1; cbn [fold_right]; try reflexivity.
+  - rewrite IHPermutation. reflexivity.
+  - ring.
+  - rewrite IHPermutation1. exact IHPermutation2.
+Qed.
+
+Lemma qsum_concat_map {A B} (f : B -> Q) (g : A -> list B) l :
+  qsum f (concat (map g l)) == qsum (fun x => qsum f (g x)) l.
+Proof.
+  induction l as [|x l IH]; cbn [map concat]; [reflexivity|].
+  rewrite qsum_app, IH. unfold qsum at 3. cbn [fold_right]. reflexivity.
+Qed.
+
+Lemma qsum_zero {A} (f : A -> Q) l : (forall x, In x l -> f x == 0) -> qsum f l == 0.
+Proof.
+  intros H. rewrite (qsum_ext f (fun _ => 0) l H). clear H. unfold qsum.
+  induction l as [|x l IH]; cbn [fold_right]; [reflexivity|]. rewrite IH. ring.
+Qed.
+
+Lemma dvalue_dsum l : dvalue (dsum l) == qsum dvalue l.
+Proof.
+  unfold dsum.
+  assert (H : forall acc, dvalue (fold_left add l acc) == dvalue acc + qsum dvalue l).
+  { induction l as [|x l IH]; intros acc; cbn [fold_left]; [unfold qsum; cbn; ring|].
+    rewrite IH, dvalue_add. unfold qsum. cbn [fold_right]. ring. }
+  rewrite H, dvalue_nil. ring.
+Qed.
+
+Lemma q_total_qsum q row k l : q_total q row k l = qsum (q_contrib q row k) l.
+Proof. reflexivity. Qed.
+
+(* -- the builder keeps every posting exactly once, each in the day of its date -- *)
+
+Definition days_dated (ds : list day) : Prop :=
+  Forall (fun d => Forall (fun t => t_date t = d_date d) (d_txns d)) ds.
+
+Lemma upd_day_perm days dt f extra :
+  (forall x, d_date x = dt -> Permutation (day_postings (f x)) (day_postings x ++ extra)) ->
+  Permutation (days_postings (upd_day days dt f)) (days_postings days ++ extra).
+Proof.
+  intros Hf. assert (He : Permutation (day_postings (f (empty_day dt))) extra) by (apply (Hf (empty_day dt)); reflexivity).
+  induction days as [|x days IH]; cbn [upd_day].
+  - unfold days_postings. cbn [map concat]. rewrite app_nil_r. exact He.
+  - destruct (dt =? d_date x)%Z eqn:E.
+    + apply Z.eqb_eq in E. unfold days_postings. cbn [map concat].
+      rewrite (Hf x (eq_sym E)). rewrite <- !app_assoc. apply Permutation_app_head. apply Permutation_app_comm.
+    + destruct (dt <? d_date x)%Z.
+      * unfold days_postings. cbn [map concat]. rewrite He.
+        change (concat (map day_postings days)) with (days_postings days).
+        rewrite Permutation_app_comm. rewrite <- app_assoc. reflexivity.
+      * unfold days_postings in *. cbn [map concat]. rewrite IH. rewrite app_assoc. reflexivity.
+Qed.
+
+Lemma upd_day_dated days dt f :
+  days_dated days ->
+  (forall x, d_date x = dt -> Forall (fun t => t_date t = dt) (d_txns x) ->
+             d_date (f x) = dt /\ Forall (fun t => t_date t = dt) (d_txns (f x))) ->
+  days_dated (upd_day days dt f).
+Proof.
+  intros Hd Hf. unfold days_dated in *.
+  assert (He : Forall (fun t => t_date t = d_date (f (empty_day dt))) (d_txns (f (empty_day dt)))).
+  { destruct (Hf (empty_day dt) eq_refl ltac:(constructor)) as [A B]. rewrite A. exact B. }
+  induction Hd as [|x days Hx Hrest IH]; cbn [upd_day].
+  - constructor; [exact He|constructor].
+  - destruct (dt =? d_date x)%Z eqn:E.
+    + apply Z.eqb_eq in E. constructor; [|exact Hrest].
+      destruct (Hf x (eq_sym E) ltac:(rewrite E; exact Hx)) as [A B]. rewrite A. exact B.
+    + destruct (dt <? d_date x)%Z.
+      * constructor; [exact He|constructor; assumption].
+      * constructor; assumption.
+Qed.
+
+Definition directive_postings (d : directive) : list (Z * posting) :=
+  match d with DTxn t => map (fun p => (t_date t, p)) (t_postings t) | _ => [] end.
+
+Lemma flat_postings_cons d ds : flat_postings (d :: ds) = directive_postings d ++ flat_postings ds.
+Proof. destruct d; reflexivity. Qed.
+
+Lemma builder_add_perm b d :
+  Permutation (days_postings (b_days (builder_add b d))) (days_postings (b_days b) ++ directive_postings d).
+Proof.
+  destruct d; cbn [builder_add b_days directive_postings]; apply upd_day_perm; intros x _;
+    unfold day_postings; cbn [d_txns]; try (rewrite app_nil_r; reflexivity).
+  unfold add_txn_day. cbn [d_txns]. rewrite map_app, concat_app. cbn [map concat]. rewrite app_nil_r. reflexivity.
+Qed.
+
+Lemma builder_add_dated b d : days_dated (b_days b) -> days_dated (b_days (builder_add b d)).
+Proof.
+  intros H. destruct d; cbn [builder_add b_days]; apply upd_day_dated; try exact H;
+    intros x Hx Hall; cbn [d_date d_txns]; try (split; assumption).
+  unfold add_txn_day. cbn [d_date d_txns]. split; [assumption|]. apply Forall_app. split; [exact Hall|repeat constructor].
+Qed.
+
+Lemma builder_of_perm dl : Permutation (days_postings (b_days (builder_of dl))) (flat_postings dl).
+Proof.
+  unfold builder_of.
+  assert (H : forall b, Permutation (days_postings (b_days (fold_left builder_add dl b))) (days_postings (b_days b) ++ flat_postings dl)).
+  { induction dl as [|d dl IH]; intros b; cbn [fold_left].
+    - unfold flat_postings. cbn. rewrite app_nil_r. reflexivity.
+    - rewrite IH, builder_add_perm, flat_postings_cons, app_assoc. reflexivity. }
+  rewrite H. reflexivity.
+Qed.
+
+Lemma builder_of_dated dl : days_dated (b_days (builder_of dl)).
+Proof.
+  unfold builder_of. assert (H0 : days_dated (b_days new_builder)) by constructor.
+  revert H0. generalize new_builder. induction dl as [|d dl IH]; intros b Hb; cbn [fold_left]; [exact Hb|].
+  apply IH. apply builder_add_dated. exact Hb.
+Qed.
+
+Lemma builder_touch_perm b dates : Permutation (days_postings (b_days (builder_touch b dates))) (days_postings (b_days b)).
+Proof.
+  unfold builder_touch. cbn [b_days]. generalize (b_days b). induction dates as [|d ds IH]; intros days; cbn [fold_left]; [reflexivity|].
+  rewrite IH. rewrite (upd_day_perm days d (fun x => x) []); [rewrite app_nil_r; reflexivity|].
+  intros x _. rewrite app_nil_r. reflexivity.
+Qed.
+
+Lemma builder_touch_dated b dates : days_dated (b_days b) -> days_dated (b_days (builder_touch b dates)).
+Proof.
+  unfold builder_touch. cbn [b_days]. generalize (b_days b). induction dates as [|d ds IH]; intros days H; cbn [fold_left]; [exact H|].
+  apply IH. apply upd_day_dated; [exact H|]. intros x Hx Hall. split; assumption.
+Qed.
+
+Lemma builder_period_spec dl : builder_period (builder_of dl) = journal_period dl.
+Proof.
+  unfold builder_of, journal_period, builder_period.
+  assert (H : forall b, mkPeriod (b_min (fold_left builder_add dl b)) (b_max (fold_left builder_add dl b)) =
+     fold_left (fun p d => match d with
+       | DTxn t => mkPeriod (Z.min (p_start p) (t_date t)) (Z.max (p_end p) (t_date t))
+       | DPrice dt _ _ _ => mkPeriod (p_start p) (Z.max (p_end p) dt)
+       | _ => p end) dl (mkPeriod (b_min b) (b_max b))).
+  { induction dl as [|d dl IH]; intros b; cbn [fold_left]; [reflexivity|].
+    rewrite IH. f_equal. destruct d; cbn [builder_add b_min b_max p_start p_end]; try reflexivity.
+    - f_equal. destruct (b_max b <? date)%Z eqn:E; lia.
+    - f_equal; [destruct (t_date t <? b_min b)%Z eqn:E; lia|destruct (b_max b <? t_date t)%Z eqn:E; lia]. }
+  rewrite H. reflexivity.
+Qed.
+
+(* ------------------------------------------------------------ Part 5: the closed form without --close *)
+
+Lemma align_list_column_for ps d : align_list ps d = column_for ps d.
+Proof.
+  induction ps as [|p ps IH]; cbn [align_list column_for]; [reflexivity|].
+  destruct (p_end p <? d)%Z eqn:E1, (d <=? p_end p)%Z eqn:E2; cbn [negb]; try lia; [exact IH|reflexivity].
+Qed.
+
+Lemma acc_eqb_sym a b : acc_eqb a b = acc_eqb b a.
+Proof.
+  unfold acc_eqb. destruct (str_eqb (acc_name a) (acc_name b)) eqn:E1, (str_eqb (acc_name b) (acc_name a)) eqn:E2; try reflexivity.
+  - apply str_eqb_eq in E1. rewrite E1, str_eqb_refl in E2. discriminate.
+  - apply str_eqb_eq in E2. rewrite E2, str_eqb_refl in E1. discriminate.
+Qed.
+
+Definition in_span (sp : period) (d : Z) : bool := (p_start sp <=? d)%Z && (d <=? p_end sp)%Z.
+
+Lemma period_contains_in_span sp d : period_contains sp d = in_span sp d.
+Proof.
+  unfold period_contains, in_span.
+  destruct (d <? p_start sp)%Z eqn:E1, (p_end sp <? d)%Z eqn:E2, (p_start sp <=? d)%Z eqn:E3, (d <=? p_end sp)%Z eqn:E4; cbn; try reflexivity; lia.
+Qed.
+
+(* the contribution of one dated posting to cell (row, c, col), in the words of the spec *)
+Definition s_contrib (cfg : balance_cfg) (sp : period) (ps : list period) (row : account) (c : commodity) (col : Z)
+           (dp : Z * posting) : Q :=
+  let '(d, p) := dp in
+  if in_span sp d then
+    match column_for ps d with
+    | Some e =>
+      if cfg_where cfg (p_acc p) (p_com p) then
+        match shorten (bc_mapping cfg) (remap (bc_remap cfg) (p_acc p)) with
+        | ShAcc a' => if (e =? col)%Z && acc_eqb row a' && str_eqb (p_com p) c then dvalue (p_qty p) else 0
+        | _ => 0
+        end
+      else 0
+    | None => 0
+    end
+  else 0.
+
+Lemma period_amount_user cfg sp ps posts row c col :
+  dvalue (period_amount (mapped_entries cfg (user_entries sp ps posts)) (acc_eqb row) c col)
+  == qsum (s_contrib cfg sp ps row c col) posts.
+Proof.
+  unfold period_amount. rewrite dvalue_dsum, qsum_concat_map.
+  unfold mapped_entries. rewrite qsum_concat_map.
+  unfold user_entries. rewrite qsum_concat_map.
+  apply qsum_ext. intros [d p] _. unfold s_contrib, in_span.
+  destruct ((p_start sp <=? d)%Z && (d <=? p_end sp)%Z); [|reflexivity].
+  destruct (column_for ps d) as [e|]; [|reflexivity].
+  unfold qsum at 1. cbn [fold_right].
+  destruct (cfg_where cfg (p_acc p) (p_com p)); [|cbn; ring].
+  destruct (shorten (bc_mapping cfg) (remap (bc_remap cfg) (p_acc p))) as [a'| |]; try (cbn; ring).
+  unfold qsum. cbn [fold_right].
+  destruct ((e =? col)%Z && acc_eqb row a' && str_eqb (p_com p) c); cbn [fold_right]; ring.
+Qed.
+
+Lemma q_contrib_balance cfg part row c col d p :
+  bc_valuation cfg = None ->
+  q_contrib (balance_query cfg part) row (Some col, Some c) (d, p)
+  == (if cfg_where cfg (p_acc p) (p_com p) then
+        match shorten (bc_mapping cfg) (remap (bc_remap cfg) (p_acc p)) with
+        | ShAcc a' => match column_for (periods part) d with
+                      | Some e => if (e =? col)%Z && acc_eqb row a' && str_eqb (p_com p) c then dvalue (p_qty p) else 0
+                      | None => 0
+                      end
+        | _ => 0
+        end
+      else 0).
+Proof.
+  intros Hv. unfold q_contrib, balance_query. cbn [q_where q_account q_date q_valued]. rewrite Hv.
+  change ((match bc_accounts cfg with [] => true | _ :: _ => rxs_match (bc_accounts cfg) (acc_name (p_acc p)) end
+           && match bc_commodities cfg with [] => true | _ :: _ => rxs_match (bc_commodities cfg) (p_com p) end))
+    with (cfg_where cfg (p_acc p) (p_com p)).
+  assert (Hw : (match bc_accounts cfg with [] => true | rs => rxs_match rs (acc_name (p_acc p)) end
+                && match bc_commodities cfg with [] => true | rs => rxs_match rs (p_com p) end) = cfg_where cfg (p_acc p) (p_com p)) by reflexivity.
+  rewrite Hw. destruct (cfg_where cfg (p_acc p) (p_com p)); [|reflexivity].
+  destruct (shorten (bc_mapping cfg) (remap (bc_remap cfg) (p_acc p))) as [a'| |]; try reflexivity.
+  unfold delta_at, contrib, idk, Date.align. rewrite align_list_column_for.
+  rewrite (acc_eqb_sym a' row).
+  destruct (column_for (periods part) d) as [e|].
+  - unfold rkey_eqb. cbn [fst snd oz_eqb ocom_eqb].
+    destruct (acc_eqb row a'); [|rewrite andb_false_r; reflexivity].
+    destruct (e =? col)%Z; cbn [andb]; [|reflexivity].
+    destruct (str_eqb (p_com p) c); reflexivity.
+  - unfold rkey_eqb. cbn [fst snd oz_eqb andb]. destruct (acc_eqb row a'); reflexivity.
+Qed.
+
+(* filtering the days by the span = filtering the dated postings *)
+Lemma filtered_days_total q row k sp days :
+  days_dated days ->
+  q_total q row k (days_postings (map (fun d => if period_contains sp (d_date d) then d else set_txns d []) days))
+  == qsum (fun dp => if in_span sp (fst dp) then q_contrib q row k dp else 0) (days_postings days).
+Proof.
+  intros Hd. rewrite q_total_qsum. unfold days_postings.
+  induction Hd as [|d days Hx _ IH]; cbn [map concat]; [reflexivity|].
+  rewrite !qsum_app, IH. apply Qplus_comp; [|reflexivity].
+  rewrite period_contains_in_span.
+  destruct (in_span sp (d_date d)) eqn:E.
+  - apply qsum_ext. intros [dt p] Hin. cbn [fst].
+    assert (dt = d_date d).
+    { unfold day_postings in Hin. apply in_concat in Hin. destruct Hin as (l & Hl & Hin).
+      apply in_map_iff in Hl. destruct Hl as (t & <- & Ht). apply in_map_iff in Hin. destruct Hin as (p0 & Hp0 & _).
+      inversion Hp0; subst. rewrite Forall_forall in Hx. apply Hx. exact Ht. }
+    subst dt. rewrite E. reflexivity.
+  - unfold day_postings at 1. cbn [set_txns d_txns map concat]. unfold qsum at 1. cbn [fold_right].
+    symmetry. apply qsum_zero. intros [dt p] Hin. cbn [fst].
+    assert (dt = d_date d).
+    { unfold day_postings in Hin. apply in_concat in Hin. destruct Hin as (l & Hl & Hin).
+      apply in_map_iff in Hl. destruct Hl as (t & <- & Ht). apply in_map_iff in Hin. destruct Hin as (p0 & Hp0 & _).
+      inversion Hp0; subst. rewrite Forall_forall in Hx. apply Hx. exact Ht. }
+    subst dt. rewrite E. reflexivity.
+Qed.
+
+Theorem report_cells_noclose cfg ds r part :
+  bc_valuation cfg = None -> bc_close cfg = false ->
+  balance_report cfg ds = COk (r, part) ->
+  exists dl,
+    parse_directives ds = MOk dl /\
+    new_partition (clip (mkPeriod (bc_from cfg) (bc_to cfg)) (journal_period dl)) (bc_interval cfg) (bc_last cfg) = POk part /\
+    forall row c col,
+      rcell row (Some col, Some c) r ==
+      dvalue (period_amount (mapped_entries cfg (user_entries (span part) (periods part) (flat_postings dl))) (acc_eqb row) c col).
+Proof.
+  intros Hv Hc H. unfold balance_report in H. rewrite Hv, Hc in H. cbn [cbind] in H.
+  unfold load in H. destruct (parse_directives ds) as [dl| |] eqn:Ep; try discriminate. cbn [cbind of_mresult] in H.
+  exists dl. split; [reflexivity|].
+  unfold cfg_partition in H. rewrite builder_period_spec in H.
+  destruct (new_partition (clip (mkPeriod (bc_from cfg) (bc_to cfg)) (journal_period dl)) (bc_interval cfg) (bc_last cfg)) as [part0| |] eqn:Epart; try discriminate.
+  cbn [cbind] in H. unfold run_stage in H.
+  destruct (process_days (check_proc (bc_lenient cfg)) check_init (b_days (builder_of dl))) as [[s1 d1]| |] eqn:E1; try discriminate.
+  cbn [cbind of_presult fst snd] in H.
+  pose proof (check_stage_id _ _ _ _ _ E1) as ->.
+  destruct (process_days (filter_proc (span part0)) tt (b_days (builder_of dl))) as [[s4 d4]| |] eqn:E4; try discriminate.
+  cbn [cbind of_presult fst snd] in H.
+  pose proof (filter_stage_spec _ _ _ _ _ E4) as ->.
+  destruct (process_days (query_proc (balance_query cfg part0) report_insert) new_report _) as [[r6 d6]| |] eqn:E6; try discriminate.
+  cbn [cbind of_presult fst snd] in H. inversion H; subst r6 part0. clear H.
+  split; [reflexivity|]. intros row c col.
+  destruct (query_days (balance_query cfg part) row (Some col, Some c) _ _ _ _ wf_new_report E6) as (_ & _ & Hcell).
+  rewrite Hcell, rcell_new, Qplus_0_l.
+  rewrite (filtered_days_total _ _ _ _ _ (builder_of_dated dl)).
+  rewrite (qsum_perm _ _ _ (builder_of_perm dl)).
+  rewrite period_amount_user. apply qsum_ext. intros [d p] _. cbn [fst]. unfold s_contrib.
+  destruct (in_span (span part) d); [|reflexivity].
+  rewrite (q_contrib_balance cfg part row c col d p Hv).
+  destruct (cfg_where cfg (p_acc p) (p_com p)).
+  - destruct (column_for (periods part) d); destruct (shorten (bc_mapping cfg) (remap (bc_remap cfg) (p_acc p))); reflexivity.
+  - destruct (column_for (periods part) d); reflexivity.
+Qed.
+
+(* ------------------------------------------------------------ presentation of one row *)
+
+Fixpoint row_values (diff neg_ : bool) (vals : ramounts) (c : option commodity) (dates : list Z) (total : Q) : list Q :=
+  match dates with
+  | [] => []
+  | d :: rest =>
+    let v := dvalue (ra_get0 vals (Some d, c)) in
+    let total' := total + v in
+    (if neg_ then - (if diff then v else total') else (if diff then v else total')) :: row_values diff neg_ vals c rest total'
+  end.
+
+Definition cell_is (cl : cell) (q : Q) : Prop := match cl with CNum n => dvalue n == q | _ => False end.
+
+Lemma row_numbers_values diff neg_ vals c dates : forall total qt,
+  dvalue total == qt ->
+  Forall2 cell_is (row_numbers diff neg_ vals c dates total) (row_values diff neg_ vals c dates qt).
+Proof.
+  induction dates as [|d rest IH]; intros total qt Ht; cbn [row_numbers row_values]; constructor.
+  - cbn [cell_is]. destruct neg_, diff; rewrite ?dvalue_neg, ?dvalue_add, ?Ht; reflexivity.
+  - apply IH. rewrite dvalue_add, Ht. reflexivity.
+Qed.
